@@ -771,7 +771,8 @@ def run(ctx):
     rnd = random.Random(ctx.seed * 7919 + 5)
     quick = ctx.tier == "quick"
 
-    widths = (140,) if quick else (140, max(G.modules_needed_to_reach(w) for w in ("do", "if", "in", "or")) + 15)
+    # quick: far enough for the first two-letter keyword (`do`) to come up in the name stream
+    widths = (140, G.modules_needed_to_reach("do") + 5) if quick else (140, max(G.modules_needed_to_reach(w) for w in ("do", "if", "in", "or")) + 15)
     bad1, projects, meta, results = behaviour_stream(ctx, rnd, 100 if quick else 1000, proofs_ok, widths)
     bad2, sprojects, sresults = small_graph_stream(ctx, rnd, [2, 3] if quick else [2, 3, 4], None)
     bad3, dprojects, dresults = defect_stream(ctx, rnd)
